@@ -35,6 +35,7 @@ func rule() string {
 		"(4) edits: EVERY single-character deletion, substitution and insertion over a %d-symbol extended alphabet applied to %d grammatical seed references. Nothing is sampled. "+
 		"For every input: acceptance must equal the scanner's verdict (strings ending in ':' or '@', authorities outside the classes plain name[:port] / [ipv6][:port] / user-info / character outside the authority syntax / non-numeric port, and form B with a malformed tag are counted and not judged); if accepted, the returned fields must equal the scanner's split and ParseReference(ref.String()) must return the same reference. "+
 		"For every input the scanner accepts: Repository.ParseReference on the bases {same, other registry, repository+x, repository/x} with the forms {tag, digest, tag@digest, fully qualified as given, fully qualified canonical, fully qualified tag@digest} (same base: must give registry/repository/reference of the split; other bases: short forms resolve against that base, fully qualified forms must be refused); then every request-issuing Repository / blob-store / manifest-store operation (reference-taking ones with the short and the fully qualified input; descriptor-taking ones, Push, Mount, Tags, Referrers, Predecessors for references without tag or digest) is run against a recording client: every request URL must be scheme://registry/v2/<repository>/<kind>/<reference> (or the documented tags/list and blobs/uploads/ forms) with no other segment, no fragment and only the documented queries (mount+from, digest, artifactType), and the operation's own documented URL must be among the requests. "+
+		"bare references handed to a Repository: every string of length 1..4 [5] over {a,Z,0,_,.,-} and the lengths 127..130 - accepted exactly when a word character is followed by at most 127 word characters, dots or dashes. "+
 		"evaluations = inputs judged + NewRepository / Repository.ParseReference calls + operations run against the recording client; non-trivial = distinct grammatical references that went through all of that (hashed: character level those of length <= 7, and at most %d per job; all of them are counted in the 'grammatical' counters)",
 		len(tokens()), len(slotRegistries()), len(slotRepositories()), len(slotSuffixes()), len(editAlphabet), len(seedRefs()), nontrivPerJob)
 }
@@ -42,6 +43,7 @@ func rule() string {
 func jobs(tier string) []driver.Job {
 	th := tier == "thorough"
 	var out []driver.Job
+	out = append(out, bareJob(th))
 	// (1) character level
 	maxLen := 8
 	if th {
